@@ -745,6 +745,99 @@ func closeSites(repo string) {
 	out.WriteString("def syncSites : List (String × String × String × String × Bool) := [\n" + strings.Join(rows, ",\n") + "]\n\n")
 }
 
+// ---------------------------------------------------------------- the scan driver's phases
+
+// classifyFor describes a `for` statement: ("stream", false) for `for { … }`, (X, true) for
+// `for i := len(X); i > 0; i--`, (X, false) for `for i := 0; i < len(X); i++`, ("?", false) otherwise.
+func classifyFor(t *ast.ForStmt) (string, bool) {
+	if t.Init == nil && t.Cond == nil && t.Post == nil {
+		return "stream", false
+	}
+	lenOf := func(e ast.Expr) string {
+		if c, ok := e.(*ast.CallExpr); ok {
+			if id, ok := c.Fun.(*ast.Ident); ok && id.Name == "len" && len(c.Args) == 1 {
+				return exprText(c.Args[0])
+			}
+		}
+		return ""
+	}
+	as, ok1 := t.Init.(*ast.AssignStmt)
+	post, ok2 := t.Post.(*ast.IncDecStmt)
+	cond, ok3 := t.Cond.(*ast.BinaryExpr)
+	if !ok1 || !ok2 || !ok3 || len(as.Rhs) != 1 {
+		return "?", false
+	}
+	if x := lenOf(as.Rhs[0]); x != "" && post.Tok == token.DEC && cond.Op == token.GTR && exprText(cond.Y) == "0" {
+		return x, true
+	}
+	if x := lenOf(cond.Y); x != "" && post.Tok == token.INC && cond.Op == token.LSS && exprText(as.Rhs[0]) == "0" {
+		return x, false
+	}
+	return "?", false
+}
+
+func scanPhases(repo string) {
+	f := parse(filepath.Join(repo, "sizes/graph.go"))
+	fd := findFunc(f, "", "ScanRepositoryUsingGraph")
+	if fd == nil {
+		die(f.Pos(), "ScanRepositoryUsingGraph not found")
+	}
+	var registers, requests, collects []string
+	var walk func(n ast.Node, loop string, rev bool, label string)
+	walk = func(n ast.Node, loop string, rev bool, label string) {
+		ast.Inspect(n, func(m ast.Node) bool {
+			switch t := m.(type) {
+			case *ast.ForStmt:
+				l, r := classifyFor(t)
+				walk(t.Body, l, r, label)
+				return false
+			case *ast.RangeStmt:
+				walk(t.Body, exprText(t.X), false, label)
+				return false
+			case *ast.CaseClause:
+				lab := "default"
+				if len(t.List) == 1 && isStrLit(t.List[0]) {
+					lab = strLit(t.List[0])
+				}
+				for _, st := range t.Body {
+					walk(st, loop, rev, lab)
+				}
+				return false
+			case *ast.AssignStmt:
+				// X = append(X, …) inside the type switch of the listing loop
+				if len(t.Lhs) == 1 && len(t.Rhs) == 1 && label != "" {
+					if c, ok := t.Rhs[0].(*ast.CallExpr); ok {
+						if id, ok := c.Fun.(*ast.Ident); ok && id.Name == "append" && len(c.Args) >= 1 && exprText(c.Args[0]) == exprText(t.Lhs[0]) {
+							collects = append(collects, fmt.Sprintf("(%s, %s)", q(label), q("append "+exprText(t.Lhs[0]))))
+						}
+					}
+				}
+			case *ast.CallExpr:
+				if sel, ok := t.Fun.(*ast.SelectorExpr); ok {
+					name := sel.Sel.Name
+					if exprText(sel.X) == "graph" && strings.HasPrefix(name, "Register") {
+						if label != "" {
+							collects = append(collects, fmt.Sprintf("(%s, %s)", q(label), q(name)))
+						}
+						registers = append(registers, fmt.Sprintf("(%s, %s, %v)", q(name), q(loop), rev))
+					}
+					if name == "RequestObject" {
+						requests = append(requests, fmt.Sprintf("(%s, %v)", q(loop), rev))
+					}
+				}
+			}
+			return true
+		})
+	}
+	walk(fd.Body, "", false, "")
+	out.WriteString("/-- `ScanRepositoryUsingGraph`, in source order: (Graph method, the loop it sits in, reversed?) -/\n")
+	out.WriteString("def scanRegisters : List (String × String × Bool) := [" + strings.Join(registers, ", ") + "]\n")
+	out.WriteString("/-- the `RequestObject` loops of the batch request goroutine: (slice, reversed?) -/\n")
+	out.WriteString("def scanRequests : List (String × Bool) := [" + strings.Join(requests, ", ") + "]\n")
+	out.WriteString("/-- what the listing loop does per object type: (type, action) -/\n")
+	out.WriteString("def scanCollects : List (String × String) := [" + strings.Join(collects, ", ") + "]\n\n")
+}
+
 func main() {
 	if len(os.Args) != 3 {
 		fmt.Fprintln(os.Stderr, "usage: gofacts <repo> <outdir>")
@@ -765,6 +858,7 @@ func main() {
 	out.WriteString("-- GENERATED by tools/gofacts from every non-test Go file of the repository — do not edit\nnamespace Gen.Cmds\n\n")
 	commandSites(repo)
 	closeSites(repo)
+	scanPhases(repo)
 	out.WriteString("end Gen.Cmds\n")
 	if err := os.WriteFile(filepath.Join(outdir, "Cmds.lean"), []byte(out.String()), 0o644); err != nil {
 		panic(err)
